@@ -91,8 +91,7 @@ V['N10-readfull-in-discard']=[('exif2/buffer.go',[('''	var discarded int
 		}
 		ir.po += uint32(discarded)
 		n -= discarded
-	}
-	return err''','''	var discarded int
+	}''','''	var discarded int
 	for n > 0 && err == nil {
 		window := ir.buffer.buf[:]
 		if bufferLength > n {
@@ -101,8 +100,7 @@ V['N10-readfull-in-discard']=[('exif2/buffer.go',[('''	var discarded int
 		discarded, err = ir.reader.Read(window)
 		ir.po += uint32(discarded)
 		n -= discarded
-	}
-	return err''')])]
+	}''')])]
 V['N11-rename-receiver-xmp']=[('xmp/reader.go',[('func (br *xmpReader) readRootTag() (tag Tag, err error) {\n	var buf []byte\n	for {\n		if _, err = br.r.ReadSlice','func (br *xmpReader) readRootTag() (tag Tag, err error) {\n	var window []byte\n	for {\n		if _, err = br.r.ReadSlice'),('		if buf, err = br.r.Peek(10); err != nil {\n			return\n		}\n\n		if bytes.Equal(xmpRootTag[1:], buf[0:9]) {','		if window, err = br.r.Peek(10); err != nil {\n			return\n		}\n\n		if bytes.Equal(xmpRootTag[1:], window[0:9]) {')])]
 V['N12-helper-extracted-isobmff']=[('isobmff/moov.go',[('''	if err != nil && logLevelError() {
 		logError().Object("box", b).Err(err).Send()
